@@ -674,6 +674,47 @@ def read_parse_guard(cpp_path):
     return bool(guard)
 
 
+def read_item_quantities(path):
+    """harness/units_quantities.cpp: the HAND-WRITTEN keyword item -> physical quantity table and the
+    quantity names (copied verbatim; nothing here looks at the keyword JSON)."""
+    src = open(path).read()
+    def region(tag):
+        m = re.search(r"// BEGIN " + tag + r"\n(.*?)// END " + tag + r"\n", src, re.S)
+        if not m:
+            raise TranslateError(f"units_quantities.cpp: markers of {tag} not found")
+        return strip_comments_keep_strings(m.group(1))
+    qnames = re.findall(r'^\s*\{\s*"(\w+)"\s*,\s*\{', region("QUANTITIES"), re.M)
+    body = region("ITEM_QUANTITIES")
+    items = []
+    for m in re.finditer(r'^\s*\{\s*"([\w.]+)"\s*,\s*\{([^{}]*)\}\s*\}\s*,\s*$', body, re.M):
+        qs = re.findall(r'"(\w+)"', m.group(2))
+        if not qs or len(qs) != m.group(2).count('"') // 2:
+            raise TranslateError(f"units_quantities.cpp: entry {m.group(1)} not readable")
+        items.append((m.group(1), qs))
+    n_lines = len([l for l in body.splitlines() if re.match(r'\s*\{\s*"', l)])
+    if not qnames or not items or n_lines != len(items):
+        raise TranslateError(f"units_quantities.cpp: {n_lines} entry lines but {len(items)} entries read")
+    if len(set(k for k, _ in items)) != len(items):
+        raise TranslateError("units_quantities.cpp: duplicate item key")
+    return qnames, items
+
+
+def generate_quant(verif_root):
+    path = os.path.join(verif_root, "harness", "units_quantities.cpp")
+    qnames, items = read_item_quantities(path)
+    o = ["/- GENERATED by translate/units.py — verbatim copy of the hand-written tables of",
+         "   harness/units_quantities.cpp (keyword item -> physical quantity of each column; quantity names).",
+         "   Do not edit.  Pure data. -/",
+         "namespace OpmVerif.Gen.UnitsQuant", "",
+         "/-- names of the physical quantities the harness has independent factors for -/",
+         "def quantityNames : List String := [" + ", ".join(lean_str(x) for x in qnames) + "]", "",
+         "/-- `KEYWORD.record.ITEM` -> physical quantity of each column (ECLIPSE reference manual) -/",
+         "def itemQuantities : List (String × List String) := ["]
+    o += [f"  ({lean_str(k)}, [" + ", ".join(lean_str(q) for q in qs) + "])" + ("," if n + 1 < len(items) else "") for n, (k, qs) in enumerate(items)]
+    o += ["]", "", "end OpmVerif.Gen.UnitsQuant", ""]
+    return {"module": "OpmVerif.Gen.UnitsQuant", "file": "UnitsQuant.lean", "text": "\n".join(o), "sources": [path]}
+
+
 def generate_use(repo, measures, listed, item_dims):
     fp = os.path.join(repo, "opm/input/eclipse/EclipseState/Grid/FieldProps.hpp")
     us_cpp = os.path.join(repo, "opm/input/eclipse/Units/UnitSystem.cpp")
@@ -790,4 +831,5 @@ def generate(repo):
     o += ["", "end OpmVerif.Gen.Units", ""]
     return [{"module": "OpmVerif.Gen.Units", "file": "Units.lean", "text": "\n".join(o),
              "sources": [hpp, us_hpp, us_cpp, deck_item_cpp] + kw_sources[:1]},
-            generate_use(repo, measures, listed, item_dims)]
+            generate_use(repo, measures, listed, item_dims),
+            generate_quant(os.path.dirname(os.path.dirname(os.path.abspath(__file__))))]
